@@ -499,4 +499,13 @@ def run(ctx):
     thriftrt.check(ctx, rule="R5.spec", roundtrip=False)
     probes = [o for o in ctx.obs if o.key.startswith("spec|")]
     decided = len(probes) >= 3 and not any(o.status != report.DISCHARGED for o in probes)
-    ctx.count("extraction_gaps_settled_by_probe", thriftrt.settle_extraction(ctx, decided))
+    # the LogicalType union is out of the root probe's reach (one member at a time): its writer is executed per
+    # member (union field ids of the specification) and per parameter combination (write then parse)
+    ctx.clause("C05.9 every LogicalType member is written under the specification's union field id, with parameters that parse back")
+    from ..rules import logicaltype
+    nlt = logicaltype.check(ctx)
+    nlp, lp_ok = logicaltype.params_roundtrip(ctx)
+    ctx.floor("C05 LogicalType members and parameter round trips", nlt + nlp, 40)
+    lt_obs = [o for o in ctx.obs if o.key.startswith(("logical-type|", "logical-params|"))]
+    logical_ok = lp_ok and bool(lt_obs) and all(o.status == report.DISCHARGED for o in lt_obs)
+    ctx.count("extraction_gaps_settled_by_probe", thriftrt.settle_extraction(ctx, decided, logical_ok=logical_ok))
